@@ -23,7 +23,7 @@ def main(tier, seed):
         run.add_mc(tlc.run_tlc("MC_LoopDeps", "MC_LoopDeps_n3r", workers=16, timeout=2400), "MC_LoopDeps_n3r")
     cases = deps_run.rotation_cases(run, "C14", seed, 300 if quick else 3000, 8, not quick,
                                     env.QUICK_X86[:2] if quick else env.X86_ARCHS,
-                                    env.QUICK_ARM[:2] if quick else env.ARM_ARCHS, max_shipped_rot=None, n_long=5 if quick else 40)
+                                    env.QUICK_ARM[:2] if quick else env.ARM_ARCHS, max_shipped_rot=None, n_long=5 if quick else 40, n_vocab=25 if quick else 150)
     deps_run.finish_family(run, "C14", cases)
     for c in cases:
         if "error" not in c and "r" in c and any(len(x[1]) >= 2 for x in c["lcd"]):
